@@ -1,12 +1,37 @@
 #!/usr/bin/env python3
 """C07: lists every place in qmluic's library (lib/src, test modules excluded) and in the CLI's generate-ui/report path
-(src/main.rs, src/reporting.rs) where the code can panic by construction — `panic!/unreachable!/unimplemented!/todo!`,
-`assert*!`, `.expect(..)`, `.unwrap()`, the project's own `unwrap_*()` helpers, index `x[i]` and slice `x[a..b]`
-expressions, and the panicking container calls `swap_remove/remove/split_at/insert(i, ..)` on vectors/strings — and
-compares the list with the pinned, *reviewed* one (pins/C07_panic_sites.json).
+(src/main.rs, src/reporting.rs) where the code can panic by construction and compares the list with the pinned,
+*reviewed* one (pins/C07_panic_sites.json).
+
+EXPLICIT sites: `panic!/unreachable!/unimplemented!/todo!`, `assert*!`, `.expect(..)`, `.unwrap()`, `.unwrap_err()`,
+`.expect_err(..)`, the project's own `unwrap_*()` helpers.
+IMPLICIT sites (operations of std that panic, or abort, without saying so in the source):
+  index / slice   `x[i]`, `map[&k]`, `x[a..b]`, `&s[a..]` (out of range, missing key, not a character boundary)
+  call            `.insert(i, x)` / `.remove(i)` (every two-argument `insert` and every `remove` whose argument is not a
+                  `&…`/string key is listed, the map/set ones get the verdict `total`), `.swap_remove`, `.split_at(_mut)`,
+                  `.split_off`, `.drain(a..b)`, `.swap(i, j)`, `.insert_str`, `.replace_range`, `.copy_from_slice`,
+                  `.clone_from_slice`, `.windows(0)`, `.chunks(0)`, `.chunks_exact`, `.rchunks`, `.step_by(0)`,
+                  `.rotate_left/right`, `RefCell::borrow_mut` (and `.borrow()` in files that name `RefCell`),
+                  `get_unchecked`, `unwrap_unchecked`, `from_utf8_unchecked`
+  div             integer `/`, `%`, `/=`, `%=` whose divisor is not a non-zero literal (division by zero and MIN / -1
+                  panic in release builds too; the scan cannot see types, float divisions get the verdict `total`)
+  as-usize        every `as usize` (a negative or huge value turns into an out-of-range index or an allocation size)
+  alloc           `with_capacity / resize / resize_with / reserve / repeat` with a non-literal size (capacity overflow
+                  panics, allocation failure aborts)
+  exit            `process::exit(code)` — the exit status clause of C07
+  range-fn/range  the accessors `byte_range/start_byte/end_byte` and every hand-made `a..b` range expression: what the report
+                  renderer slices the source text with (the range clause of C07)
+Overflow of `+ - *` is not listed: it panics in debug builds only (the harness builds the library with overflow checks, so
+the c07 stream exercises it; release semantics wrap).
 
 A site = (file, enclosing fn, kind, normalised text) with a multiplicity.  Every pinned site carries a verdict
 (`class`) and a one-line argument (`why`) written by a reviewer; `pins/C07_panic_sites.md` is rendered from the JSON.
+GUARDS are pinned too: each site records `fn_sha`, a hash of the text of its enclosing function (comments and white space
+removed), and — where the argument rests on code elsewhere ("the parser adapter produces consistent positions") —
+`guards`: the functions that establish it (`file.rs::Impl::fn`; `file.rs` = the whole module; `Cargo.lock#pkg` = version and
+checksum of a third-party package, used for the grammar), each with its hash.  When the enclosing function or a
+guard function changes, the site is reported as GUARD-CHANGED and the comparison fails until the argument was re-read
+and the pin renewed (`--update` keeps the verdict, prints the sites to re-read).
 
 Usage: panic_sites.py [--update] [--list]
   exit 0 = the list is unchanged and every site is reviewed,
@@ -27,13 +52,16 @@ CLASSES = {
     "grammar": "cannot fire as long as tree-sitter-qmljs produces the node shapes of its grammar (tested by the c07 stream, not proved)",
     "startup": "outside the quantifier of C07 (type-map construction / metatypes loading / CLI option handling / preview), or test-only helper",
     "io": "propagates an I/O failure of the output writer (not a property of the input text)",
+    "total": "not a panic site after all: the operation is total on this receiver / operand type (HashMap/HashSet insert and remove, float division, a method that only shares its name with a panicking one); listed because the scan is syntactic",
+    "exit-status": "process::exit with the literal status 1 on a reported error (the statement of C07 allows 0 and 1)",
     "REACHABLE": "fires on some input: finding",
     "UNREVIEWED": "new site, no argument yet",
 }
 
 
-def mask(src):
-    """Returns src with the *contents* of comments, string and char literals replaced by blanks (same length)."""
+def mask(src, comments=None):
+    """Returns src with the *contents* of comments, string and char literals replaced by blanks (same length).
+    `comments`, if given, receives the (start, end) ranges of the comments."""
     out = list(src)
     i, n = 0, len(src)
 
@@ -47,6 +75,8 @@ def mask(src):
             j = src.find("\n", i)
             j = n if j < 0 else j
             blank(i, j)
+            if comments is not None:
+                comments.append((i, j))
             i = j
         elif src.startswith("/*", i):
             depth, j = 1, i + 2
@@ -60,6 +90,8 @@ def mask(src):
                 else:
                     j += 1
             blank(i, j)
+            if comments is not None:
+                comments.append((i, j))
             i = j
         elif c == "r" and re.match(r'r#*"', src[i:i + 12]) and (i == 0 or not (src[i - 1].isalnum() or src[i - 1] == "_")):
             m = re.match(r'r(#*)"', src[i:i + 12])
@@ -85,6 +117,34 @@ def mask(src):
         else:
             i += 1
     return "".join(out)
+
+
+def sha_of(text):
+    import hashlib
+    return hashlib.sha256(re.sub(r"\s+", "", text).encode()).hexdigest()[:16]
+
+
+def fn_extents(m):
+    """[(start, end, name)] of every `fn` with a body in the masked text"""
+    out = []
+    for x in re.finditer(r"\bfn\s+(\w+)", m):
+        depth, k, n = 0, x.end(), len(m)
+        body = -1
+        while k < n:
+            c = m[k]
+            if c in "([":
+                depth += 1
+            elif c in ")]":
+                depth -= 1
+            elif c == ";" and depth == 0:
+                break
+            elif c == "{" and depth == 0:
+                body = k
+                break
+            k += 1
+        if body >= 0:
+            out.append((x.start(), balanced_end_long(m, body), x.group(1)))
+    return out
 
 
 def balanced_end(masked, start, open_ch, close_ch):
@@ -152,23 +212,102 @@ def receiver_start(masked, pos):
 
 MACROS = r"\b(panic|unreachable|unimplemented|todo|assert|assert_eq|assert_ne|debug_assert|debug_assert_eq|debug_assert_ne)!\s*\("
 OWN_UNWRAP = r"\.\s*(unwrap_(?!or\b|or_else\b|or_default\b|unchecked\b)\w+)\s*\("
-CALLS = r"\.\s*(swap_remove|split_at|split_at_mut|split_off|drain)\s*\("
-# Vec::remove(i) / Vec::insert(i, x): recognised by an index-like first argument (HashMap::insert/remove never panic)
-VEC_REMOVE = r"\.\s*(?:remove\s*\(\s*(?:\d+|i|j|n|p|pos|index|idx|line)\s*\)|insert\s*\(\s*(?:\d+|(?:\w+\.)*(?:i|j|n|p|pos|position|index|idx|line))\s*,)"
+CALLS = (r"\.\s*(swap_remove|split_at|split_at_mut|split_off|drain|swap|insert_str|replace_range|copy_from_slice|clone_from_slice|"
+         r"windows|chunks|chunks_exact|rchunks|step_by|rotate_left|rotate_right|borrow_mut|get_unchecked|get_unchecked_mut|"
+         r"unwrap_unchecked|from_utf8_unchecked)\s*\(")
+# Vec::remove(i) / Vec::insert(i, x) / String::insert/remove: every two-argument `insert` and every one-argument `remove`
+# whose argument is not written as a key (`&…` / string literal); the receiver's type is not visible to the scan, so
+# HashMap::insert(k, v) / remove(k) are listed too and get the verdict `total`
+INSERT_REMOVE = r"\.\s*(insert|remove)\s*\("
+ALLOC = r"(?:\.\s*|::)(with_capacity|resize|resize_with|reserve|reserve_exact)\s*\(|\.\s*(repeat)\s*\("
 
 
-def sites_of(path, rel):
-    src = open(path, encoding="utf-8").read()
+def top_level_args(inner):
+    """splits the text between the parentheses of a call at top-level commas"""
+    args, depth, cur = [], 0, []
+    for c in inner:
+        if c in "([{":
+            depth += 1
+        elif c in ")]}":
+            depth -= 1
+        if c == "," and depth == 0:
+            args.append("".join(cur).strip())
+            cur = []
+        else:
+            cur.append(c)
+    last = "".join(cur).strip()
+    if last:
+        args.append(last)
+    return args
+
+
+_FILES = {}
+
+
+def analyse(rel):
+    """(src, masked, fn extents, impl extents, comment flags) of a file of /repo, test module cut off"""
+    if rel in _FILES:
+        return _FILES[rel]
+    src = open(os.path.join(REPO, rel), encoding="utf-8").read()
     cut = src.find("#[cfg(test)]")
     if cut >= 0:
         src = src[:cut]
-    m = mask(src)
-    fn_positions = [(x.start(), x.group(1)) for x in re.finditer(r"\bfn\s+(\w+)", m)]
+    comments = []
+    m = mask(src, comments)
+    is_comment = bytearray(len(src))
+    for a, b in comments:
+        for k in range(a, b):
+            is_comment[k] = 1
     impl_extents = []
     for x in re.finditer(r"^impl(?:<[^>{]*>)?\s+(?:[\w:<>' ,]+\s+for\s+)?&?(?:'\w+\s+)?(\w+)", m, flags=re.M):
         brace = m.find("{", x.end())
         if brace >= 0:
             impl_extents.append((x.start(), balanced_end_long(m, brace), x.group(1)))
+    _FILES[rel] = (src, m, fn_extents(m), impl_extents, is_comment)
+    return _FILES[rel]
+
+
+def text_sha(rel, a, b):
+    """hash of src[a:b] without comments and white space"""
+    src, _, _, _, is_comment = analyse(rel)
+    return sha_of("".join(src[k] for k in range(a, b) if not is_comment[k]))
+
+
+def resolve_guard(g):
+    """`lib/src/x.rs::Impl::fn` or `lib/src/x.rs::fn` → hash of that function (all of them, in order, if the name is
+    defined more than once there); None if it does not exist"""
+    if g.startswith("Cargo.lock#"):
+        # a third-party package the argument rests on (the grammar): its version + checksum in /repo/Cargo.lock
+        lock = open(os.path.join(REPO, "Cargo.lock"), encoding="utf-8").read()
+        at = lock.find('name = "' + g.split("#", 1)[1] + '"\n')
+        if at < 0:
+            return None
+        end = lock.find("\n\n", at)
+        return sha_of(lock[at:end if end >= 0 else len(lock)])
+    parts = g.split("::")
+    rel, names = parts[0], parts[1:]
+    if not os.path.exists(os.path.join(REPO, rel)):
+        return None
+    if not names:
+        # the whole file (test module cut off): for invariants kept by a module as a whole
+        return text_sha(rel, 0, len(analyse(rel)[0]))
+    _, _, extents, impls, _ = analyse(rel)
+    fn, imp = names[-1], (names[0] if len(names) == 2 else None)
+    found = []
+    for a, b, n in extents:
+        if n != fn:
+            continue
+        if imp is not None and not any(ia <= a < ib and iname == imp for ia, ib, iname in impls):
+            continue
+        found.append(text_sha(rel, a, b))
+    if not found:
+        return None
+    return found[0] if len(found) == 1 else sha_of("".join(found))
+
+
+def sites_of(path, rel):
+    src, m, extents, impl_extents, _ = analyse(rel)
+    fn_positions = [(x.start(), x.group(1)) for x in re.finditer(r"\bfn\s+(\w+)", m)]
 
     def enclosing(pos):
         name = "?"
@@ -187,7 +326,12 @@ def sites_of(path, rel):
     def add(pos, kind, text):
         fn, imp = enclosing(pos)
         line = src.count("\n", 0, pos) + 1
-        found.append({"file": rel, "fn": fn, "impl": imp, "kind": kind, "text": norm(text), "line": line})
+        inner = [(a, b) for a, b, _ in extents if a <= pos < b]
+        if inner:
+            a, b = max(inner)  # innermost = latest start
+        else:
+            a, b = src.rfind("\n", 0, pos) + 1, (src.find("\n", pos) if src.find("\n", pos) >= 0 else len(src))
+        found.append({"file": rel, "fn": fn, "impl": imp, "kind": kind, "text": norm(text), "line": line, "fn_sha": text_sha(rel, a, b)})
     for x in re.finditer(MACROS, m):
         end = balanced_end(m, x.end() - 1, "(", ")")
         add(x.start(), x.group(1) + "!", src[x.start():end])
@@ -207,10 +351,75 @@ def sites_of(path, rel):
         end = balanced_end(m, x.end() - 1, "(", ")")
         st = receiver_start(m, x.start())
         add(x.start(), "call", src[st:end])
-    for x in re.finditer(VEC_REMOVE, m):
-        end = balanced_end(m, m.find("(", x.start()), "(", ")")
+    for x in re.finditer(INSERT_REMOVE, m):
+        end = balanced_end(m, x.end() - 1, "(", ")")
+        args = top_level_args(src[x.end():end - 1])
+        margs = top_level_args(m[x.end():end - 1])
+        if x.group(1) == "insert" and len(args) != 2:
+            continue  # HashSet::insert(x)
+        if x.group(1) == "remove" and (len(args) != 1 or args[0].startswith("&") or margs[0].startswith('"')):
+            continue  # map.remove(&key) / map.remove("key")
         st = receiver_start(m, x.start())
         add(x.start(), "call", src[st:end])
+    for x in re.finditer(r"\.\s*(unwrap_err\s*\(\s*\)|expect_err\s*\()", m):
+        end = balanced_end(m, m.find("(", x.start()), "(", ")")
+        st = receiver_start(m, x.start())
+        add(x.start(), "unwrap", src[st:end])
+    if "RefCell" in m:
+        for x in re.finditer(r"\.\s*borrow\s*\(\s*\)", m):
+            st = receiver_start(m, x.start())
+            add(x.start(), "call", src[st:x.end()])
+    # integer division / remainder by something that is not a non-zero literal
+    for x in re.finditer(r"(?<![/*])(/|%)(=?)(?![/*])", m):
+        rest = m[x.end():x.end() + 40].lstrip()
+        lit = re.match(r"(\d[\d_]*)(\.\d+)?(?:_?[iuf]\d+|usize|isize)?\b", rest)
+        if lit and float(lit.group(1).replace("_", "") + (lit.group(2) or "")) != 0:
+            continue
+        ls = m.rfind("\n", 0, x.start()) + 1
+        le = m.find("\n", x.start())
+        le = len(m) if le < 0 else le
+        add(x.start(), "div", src[ls:le])
+    for x in re.finditer(r"\bas\s+usize\b", m):
+        ls = m.rfind("\n", 0, x.start()) + 1
+        le = m.find("\n", x.start())
+        le = len(m) if le < 0 else le
+        add(x.start(), "as-usize", src[ls:le])
+    for x in re.finditer(ALLOC, m):
+        end = balanced_end(m, x.end() - 1, "(", ")")
+        args = top_level_args(m[x.end():end - 1])
+        if not args or re.fullmatch(r"\d[\d_]*", args[0]):
+            continue
+        st = receiver_start(m, x.start())
+        st = min(st, x.start())
+        # `Vec::with_capacity(..)`: take the path in front of it
+        k = x.start()
+        while k > 0 and (m[k - 1].isalnum() or m[k - 1] in "_:<>."):
+            k -= 1
+        add(x.start(), "alloc", src[min(st, k):end])
+    # producers of diagnostic byte ranges: the accessor functions and every hand-made `a..b` (outside index brackets,
+    # `for … in`, patterns and numeric loops): a range that leaves the text or a character boundary makes the report
+    # renderer slice out of bounds
+    for x in re.finditer(r"\bfn\s+(byte_range|start_byte|end_byte)\b", m):
+        ext = [(a, b) for a, b, _ in extents if a == x.start()]
+        if ext:
+            add(x.start() + 3, "range-fn", src[x.start():ext[0][1]])
+    for x in re.finditer(r"([\w.)\]]+)\s*\.\.=?\s*([\w.(]+)", m):
+        lhs, rhs = x.group(1), x.group(2)
+        if re.fullmatch(r"[\d_]+", lhs) and re.fullmatch(r"[\d_]+", rhs):
+            continue
+        ls = m.rfind("\n", 0, x.start()) + 1
+        le = m.find("\n", x.start())
+        le = len(m) if le < 0 else le
+        line = m[ls:le]
+        # inside index brackets (kind slice), a `for` header, or a match pattern
+        if m[ls:x.start()].count("[") > m[ls:x.start()].count("]") or re.search(r"\bfor\b.*\bin\b", m[ls:x.start()]) or "=>" in m[x.end():le]:
+            continue
+        if lhs.endswith(".") or rhs.startswith("."):
+            continue  # `...`, `..=` leftovers, struct update `..Default::default()`
+        add(x.start(), "range", src[ls:le])
+    for x in re.finditer(r"\bprocess::exit\s*\(", m):
+        end = balanced_end(m, x.end() - 1, "(", ")")
+        add(x.start(), "exit", src[x.start():end])
     # index / slice expressions: `[` directly after an identifier, `)`, `]` or `?`
     for x in re.finditer(r"(?<=[\w)\]?])\[", m):
         before = m[max(0, x.start() - 40):x.start()]
@@ -252,9 +461,11 @@ def collect():
         if k in agg:
             agg[k]["n"] += 1
             agg[k]["lines"].append(s["line"])
+            if s["fn_sha"] not in agg[k]["fn_sha"].split("+"):
+                agg[k]["fn_sha"] += "+" + s["fn_sha"]
         else:
             agg[k] = {"file": s["file"], "impl": s["impl"], "fn": s["fn"], "kind": s["kind"], "text": s["text"], "n": 1,
-                      "lines": [s["line"]]}
+                      "lines": [s["line"]], "fn_sha": s["fn_sha"]}
     return sorted(agg.values(), key=lambda s: (s["file"], s["lines"][0], s["kind"], s["text"]))
 
 
@@ -271,15 +482,23 @@ def render_md(sites):
     for c, d in CLASSES.items():
         n = sum(s["n"] for s in sites if s.get("class") == c)
         out.append(f"* **{c}** ({n}) — {d}")
+    kinds = {}
+    for s in sites:
+        kinds[s["kind"]] = kinds.get(s["kind"], 0) + s["n"]
+    out += ["", "Occurrences by kind: " + ", ".join(f"{k} {v}" for k, v in sorted(kinds.items())) + ".",
+            "Implicit kinds (std operations that panic or abort without saying so): index, slice, call (`insert(i,…)`, `remove(i)`,",
+            "`swap_remove`, `split_at`, `drain`, `borrow_mut`, …), div (`/`, `%` by a non-literal), as-usize, alloc (`with_capacity`,",
+            "`resize_with`, … with a computed size), exit (`process::exit`).  Every site also pins a hash of its enclosing function;",
+            "sites whose argument rests on code elsewhere name that code (⟨guard pinned: …⟩) and pin its hash too: when a guard",
+            "changes, the comparison fails until the argument was re-read.", ""]
     out += ["", "Panics that no syntactic scan can list (named in the evidence as outside the model):", "",
             "* **stack exhaustion** — `typedexpr::walk_expr`/`walk_stmt`, `ObjectTree::populate_node_rec`, the uigen object walk and",
             "  tree-sitter's own recursive routines recurse on the nesting depth of the input: finding **F11** (abort with SIGABRT,",
             "  not an unwinding panic); the c07 stream bounds the depth in-process and tests deep inputs through the CLI binary only.",
-            "* **arithmetic overflow** — `overflow-checks` is off in the release profile; the harness enables it for the library, so",
-            "  `i + 1`, `*i - 1`, `start + count`, `column as usize` style arithmetic is exercised with checks on.  Constant folding",
-            "  itself uses `checked_*` operations (tir/ceval.rs).",
-            "* **allocation failure / capacity overflow** — `Vec::with_capacity(depth + 1)`, `String::with_capacity(node.byte_range().len())`,",
-            "  `array.resize_with(index + 1, ..)` (index ≤ 65535 after the layout range check) are bounded by the input size.",
+            "* **arithmetic overflow of `+ - *`** — `overflow-checks` is off in the release profile (release semantics wrap); the harness",
+            "  enables it for the library, so `i + 1`, `*i - 1`, `start + count` style arithmetic is exercised with checks on.",
+            "  Constant folding itself uses `checked_*` operations (tir/ceval.rs).  Division, `as usize` and allocation sizes ARE",
+            "  listed below (kinds div, as-usize, alloc).",
             "* **third-party code** — tree-sitter, quick-xml, codespan-reporting, serde: exercised, not reviewed.", ""]
     cur = None
     for s in sites:
@@ -289,10 +508,17 @@ def render_md(sites):
         fn = (s["impl"] + "::" if s["impl"] else "") + s["fn"]
         text = s["text"].replace("|", "\\|")
         why = s.get("why", "").replace("|", "\\|")
+        if s.get("guards"):
+            why += " ⟨guard pinned: " + ", ".join("`" + g.replace("lib/src/", "") + "`" for g in s["guards"]) + "⟩"
         mult = f" ×{s['n']}" if s["n"] > 1 else ""
         out.append(f"| {','.join(map(str, s['lines']))} | `{fn}` | {s['kind']}{mult} | `{text}` | **{s.get('class', 'UNREVIEWED')}** | {why} |")
     out.append("")
     return "\n".join(out)
+
+
+def guard_state(site):
+    """{guard: sha or None} of the guards a pinned site names"""
+    return {g: resolve_guard(g) for g in site.get("guards", [])}
 
 
 def main():
@@ -312,20 +538,36 @@ def main():
         if npath:
             for e in json.load(open(npath)):
                 notes[(e["file"], e["fn"], e["kind"], e["text"])] = e
+        reread = []
         for s in sites:
             o = old.get(key(s))
             nn = notes.get((s["file"], s["fn"], s["kind"], s["text"]))
             if nn:
                 s["class"], s["why"] = nn["class"], nn["why"]
+                if nn.get("guards"):
+                    s["guards"] = nn["guards"]
             elif o and o.get("class", "UNREVIEWED") != "UNREVIEWED":
                 s["class"], s["why"] = o["class"], o.get("why", "")
             else:
                 s["class"], s["why"] = "UNREVIEWED", ""
+            if o and o.get("guards") and "guards" not in s:
+                s["guards"] = o["guards"]
+            if "guards" in s:
+                s["guard_shas"] = guard_state(s)
+                missing = [g for g, h in s["guard_shas"].items() if h is None]
+                if missing:
+                    print(f"panic_sites: guard function(s) not found: {missing} (site {s['file']}::{s['fn']} {s['text']})")
+                    return 2
+            if o and (o.get("fn_sha") not in (None, s["fn_sha"]) or (o.get("guard_shas") or {}) != (s.get("guard_shas") or {}) and o.get("guard_shas")):
+                reread.append(s)
         os.makedirs(os.path.dirname(PIN), exist_ok=True)
         json.dump(sites, open(PIN, "w"), indent=1, ensure_ascii=False)
         open(MD, "w", encoding="utf-8").write(render_md(sites))
         unrev = sum(1 for s in sites if s["class"] == "UNREVIEWED")
-        print(f"panic_sites: pinned {len(sites)} sites ({sum(s['n'] for s in sites)} occurrences), {unrev} unreviewed")
+        print(f"panic_sites: pinned {len(sites)} sites ({sum(s['n'] for s in sites)} occurrences), {unrev} unreviewed, "
+              f"{sum(1 for s in sites if s.get('guards'))} with guards elsewhere")
+        for s in reread:
+            print(f"panic_sites: RE-READ the argument of {s['file']}:{s['lines'][0]} {s['impl']}::{s['fn']} `{s['text']}` — its function or a guard changed")
         return 0
     a = {key(s) for s in sites}
     b = set(old)
@@ -338,6 +580,24 @@ def main():
         print(f"panic_sites: the list of panic sites changed ({len(a - b)} new, {len(b - a)} gone); review the new sites and "
               f"re-pin with tools/panic_sites.py --update")
         rc = 2
+    # guards: the enclosing function of every site and the guard functions named by the argument
+    moved = 0
+    for s in sites:
+        o = old.get(key(s))
+        if not o:
+            continue
+        if o.get("fn_sha") != s["fn_sha"]:
+            moved += 1
+            print(f"panic_sites: GUARD-CHANGED {s['file']}:{s['lines'][0]} {s['impl']}::{s['fn']} `{s['text']}`: the enclosing function "
+                  f"changed since the argument was reviewed ({o.get('class')}: {o.get('why', '')[:120]})", file=sys.stderr)
+        for g, h in guard_state(o).items():
+            if h != (o.get("guard_shas") or {}).get(g):
+                moved += 1
+                print(f"panic_sites: GUARD-CHANGED {s['file']}:{s['lines'][0]} {s['impl']}::{s['fn']} `{s['text']}`: guard {g} "
+                      f"{'no longer exists' if h is None else 'changed'} ({o.get('class')}: {o.get('why', '')[:120]})", file=sys.stderr)
+    if moved:
+        print(f"panic_sites: {moved} guard(s) of pinned panic sites changed: the arguments must be re-read (then re-pin with --update)")
+        rc = 2
     unrev = [s for s in pinned if s.get("class", "UNREVIEWED") == "UNREVIEWED"]
     if unrev:
         print(f"panic_sites: {len(unrev)} pinned site(s) carry no argument (class UNREVIEWED)")
@@ -346,9 +606,14 @@ def main():
         hist = {}
         for s in pinned:
             hist[s["class"]] = hist.get(s["class"], 0) + s["n"]
-        print(f"panic_sites: {len(sites)} sites ({sum(s['n'] for s in sites)} occurrences), as pinned: " +
-              ", ".join(f"{k}={v}" for k, v in sorted(hist.items())))
+        implicit = sum(s["n"] for s in pinned if s["kind"] in IMPLICIT_KINDS)
+        print(f"panic_sites: {len(sites)} sites ({sum(s['n'] for s in sites)} occurrences; {implicit} implicit: index/slice/call/div/as-usize/"
+              f"alloc/exit/range), as pinned: " + ", ".join(f"{k}={v}" for k, v in sorted(hist.items()))
+              + f"; enclosing functions and {sum(len(s.get('guards', [])) for s in pinned)} guard references unchanged")
     return rc
+
+
+IMPLICIT_KINDS = {"index", "slice", "call", "div", "as-usize", "alloc", "exit", "range", "range-fn"}
 
 
 if __name__ == "__main__":
